@@ -364,7 +364,9 @@ def _anc(prog_nodes, r, nid):
 def evaluate(prog, run, val, extra_kwargs=None):
     r = Ref(prog, run, val, extra_kwargs)
     r.run_program()
-    if any(v > 0 for v in r.rec_iters.values()):
+    if any(v > 0 for v in r.rec_iters.values()) or any(o[0] == 'next' for e in r.inv.values() for o in e.outcomes):
+        # a destination asked for another iteration at least once (with max_iterations=0 none is granted, but the
+        # Recurrent marker has been produced - and saved - all the same)
         r.dyn.add('rec_iterates')
     if r.losers:
         r.dyn.add('cand_fail')
